@@ -85,22 +85,18 @@ func extractRegionRows(pkg *packages.Package, fd *ast.FuncDecl) ([]regionRow, st
 	}
 	var rows []regionRow
 	problem := ""
-	ast.Inspect(fd.Body, func(n ast.Node) bool {
-		ifs, ok := n.(*ast.IfStmt)
+	handle := func(cond ast.Expr, body []ast.Stmt, pos token.Pos) {
+		be, ok := ast.Unparen(cond).(*ast.BinaryExpr)
 		if !ok {
-			return true
-		}
-		be, ok := ast.Unparen(ifs.Cond).(*ast.BinaryExpr)
-		if !ok {
-			return true
+			return
 		}
 		if _, isCmp := flipRel[be.Op]; !isCmp {
-			return true
+			return
 		}
 		k1, s1, a1, ok1 := coordOf(pkg, be.X, pointPar, boundPar)
 		k2, s2, a2, ok2 := coordOf(pkg, be.Y, pointPar, boundPar)
 		if !ok1 || !ok2 || k1 == k2 {
-			return true
+			return
 		}
 		op := be.Op
 		side, axis := s2, a2
@@ -112,26 +108,41 @@ func extractRegionRows(pkg *packages.Package, fd *ast.FuncDecl) ([]regionRow, st
 		if a1 != axis {
 			problem = fmt.Sprintf("compares point coordinate %d with box coordinate %d", a1, axis)
 		}
-		// the guarded statement: code |= K
 		var bit int64 = -1
-		for _, st := range ifs.Body.List {
+		for _, st := range body {
 			if as, ok := st.(*ast.AssignStmt); ok && as.Tok == token.OR_ASSIGN && len(as.Rhs) == 1 {
 				if v, ok := constInt(pkg, as.Rhs[0]); ok {
 					bit = v
 				}
 			}
-			if as, ok := st.(*ast.AssignStmt); ok && as.Tok == token.ASSIGN && len(as.Rhs) == 1 {
-				if b2, ok := ast.Unparen(as.Rhs[0]).(*ast.BinaryExpr); ok && b2.Op == token.OR {
+			if as, ok := st.(*ast.AssignStmt); ok && (as.Tok == token.ASSIGN || as.Tok == token.ADD_ASSIGN) && len(as.Rhs) == 1 {
+				if b2, ok := ast.Unparen(as.Rhs[0]).(*ast.BinaryExpr); ok && (b2.Op == token.OR || b2.Op == token.ADD) {
 					if v, ok := constInt(pkg, b2.Y); ok {
 						bit = v
 					}
+				} else if v, ok := constInt(pkg, as.Rhs[0]); ok && as.Tok == token.ADD_ASSIGN {
+					bit = v
 				}
 			}
 		}
 		if bit < 0 {
-			return true
+			return
 		}
-		rows = append(rows, regionRow{bit: bit, axis: axis, side: side, rel: op.String(), pos: ifs.Pos()})
+		rows = append(rows, regionRow{bit: bit, axis: axis, side: side, rel: op.String(), pos: pos})
+	}
+	ast.Inspect(fd.Body, func(n ast.Node) bool {
+		switch x := n.(type) {
+		case *ast.IfStmt:
+			handle(x.Cond, x.Body.List, x.Pos())
+		case *ast.SwitchStmt:
+			if x.Tag == nil {
+				for _, cl := range x.Body.List {
+					if cc, ok := cl.(*ast.CaseClause); ok && len(cc.List) == 1 {
+						handle(cc.List[0], cc.Body, cc.Pos())
+					}
+				}
+			}
+		}
 		return true
 	})
 	return rows, problem
